@@ -115,6 +115,44 @@ def r1(rr, repo):
             src = e.value.args[0]
             rr.ob('the image resized is the frame\'s own', U(src) == 'frame.image', mod, e.node, witness=U(src), key='util-src')
     rr.floor('size actions reaching cv2.resize in Util', len(seen - {None}), 3, mod, fn)
+    # the resize may be skipped only when the target equals the current size, compared in matching (width, height) order
+    n_skip = 0
+    for p in paths:
+        if resize_calls(p) or p.outcome is None or p.outcome[0] != 'return':
+            continue
+        w_t, h_t = p.env.get('w'), p.env.get('h')
+        if w_t is None or h_t is None:
+            continue
+        W, H = U(w_t), U(h_t)
+        n_skip += 1
+        eqs = {kk: v for kk, v in p.facts.items() if kk.startswith('eq(')}
+        def eq_true(a, b):
+            x, y = sorted((a, b))
+            return eqs.get(f'eq({x}, {y})') is True or a == b
+        ok = None
+        if eq_true(W, 'frame.width') and eq_true(H, 'frame.height'):
+            ok = True
+        else:
+            for kk, v in eqs.items():
+                if v is not True:
+                    continue
+                inner = kk[3:-1]
+                for shp in ('frame.shape[:2]', 'frame.image.shape[:2]'):
+                    if shp in inner:
+                        other = inner.replace(shp, '').strip(', ')
+                        if other == f'({H}, {W})':
+                            ok = True          # numpy shape is (rows, cols) = (height, width)
+                        elif other == f'({W}, {H})':
+                            ok = False         # (width, height) compared with (height, width)
+                for pair, good in ((f'(frame.width, frame.height)', f'({W}, {H})'), (f'(frame.height, frame.width)', f'({H}, {W})')):
+                    if pair in inner:
+                        other = inner.replace(pair, '').strip(', ')
+                        ok = (other == good) if ok is None else ok
+        if ok is None:
+            rr.unresolved('the condition under which the resize is skipped is not a recognised size comparison', mod, fn, witness=p.pc_text()[-200:], key='skip-guard')
+        else:
+            rr.ob('the resize is skipped only when the target (w, h) equals the current (width, height), compared in matching order', ok, mod, fn, witness=p.pc_text()[-200:], key=f'skip-guard|{ok}')
+    rr.floor('paths of execute_xform_size that skip the resize', n_skip, 1, mod, fn)
     vmod, vfn, region, vpaths = video_paths(repo)
     rr.paths += len(vpaths)
     n = 0
